@@ -44,10 +44,12 @@ def run_schedule(d, thread_files, sched, caller=None):
     """thread_files: file name per thread; returns per thread ['ok', result] / ['err', cls]"""
     from opcua_tools.nodeset_parser import parse_xml_files
     n = len(thread_files); S = Scheduler(n); results = [None] * n
+    per_thread = isinstance(caller, (tuple, list)) and len(caller) == 2 and caller[0] == "per-thread"
+    callers = caller[1] if per_thread else [caller] * n        # ("per-thread", [list or None, ...]): every call has its own namespace list
     def work(i):
         S.register(i)
         try:
-            res = parse_xml_files([os.path.join(d, thread_files[i])], None if caller is None else list(caller)); results[i] = ["ok", whole_result(res)]
+            res = parse_xml_files([os.path.join(d, thread_files[i])], None if callers[i] is None else list(callers[i])); results[i] = ["ok", whole_result(res)]
         except BaseException as e:
             results[i] = ["err", type(e).__name__]
         finally:
@@ -110,11 +112,13 @@ CORPUS = [[0,0,0,0,1,1,0,0,0,0,1,1,1,1,1,1], [0,0,0,1,1,1,1,1,1,1,1,0,0,0,0,0], 
 def judge(files_doc, thread_files, sched, work, caller=None):
     d = os.path.join(work, "run"); shutil.rmtree(d, ignore_errors=True)
     write_docs(d, [(n, docs.render(doc, random.Random(1))) for n, doc in files_doc])
-    solos = {n: solo(d, n, caller) for n, _ in files_doc}
+    per_thread = isinstance(caller, (tuple, list)) and len(caller) == 2 and caller[0] == "per-thread"
+    callers = caller[1] if per_thread else [caller] * len(thread_files)
+    solo_of = [solo(d, thread_files[i], callers[i]) for i in range(len(thread_files))]
     before = sorted(os.listdir(d))
     res = run_schedule(d, thread_files, sched, caller)
     after = sorted(os.listdir(d))
-    out = [["solo"] if res[i] == solos[thread_files[i]] else ["bad", res[i][0], res[i][1] if res[i][0] == "err" else "other-data"] for i in range(len(thread_files))]
+    out = [["solo"] if res[i] == solo_of[i] else ["bad", res[i][0], res[i][1] if res[i][0] == "err" else "other-data"] for i in range(len(thread_files))]
     fails = []
     same = len(set(thread_files)) < len(thread_files)
     for i, o in enumerate(out):
@@ -137,12 +141,15 @@ def check(ctx):
                    "extraction + driver.ml, cross-checked against vm_compute on a sample"]
     work = os.path.join(vlib.WORK, "c20_%d" % os.getpid()); os.makedirs(work, exist_ok=True)
     da = docs.simple_doc(rng, "urn:a"); db = docs.simple_doc(rng, "urn:b", n_nodes=2, with_aliases=False)
-    files_doc = [("a.xml", da), ("b.xml", db)]
-    hdr = {"a.xml": 1, "b.xml": 2}; pth = {"a.xml": 0, "b.xml": 1}; nl = {"a.xml": nlines_of(da), "b.xml": nlines_of(db)}
+    dc = docs.simple_doc(rng, "urn:c", extra_uris=["urn:a"], n_nodes=2)
+    files_doc = [("a.xml", da), ("b.xml", db), ("c.xml", dc)]
+    hdr = {"a.xml": 1, "b.xml": 2, "c.xml": 3}; pth = {"a.xml": 0, "b.xml": 1, "c.xml": 2}; nl = {"a.xml": nlines_of(da), "b.xml": nlines_of(db), "c.xml": nlines_of(dc)}
     # the last set gives both calls the caller's namespace list [UA, urn:a, urn:b]: the two files then map the same local index ns=1 to
     # different global indices while spelling their NodeIds alike - the situation in which anything shared between the calls shows
     CALLER = [docs.UA, "urn:a", "urn:b"]
-    sets = [(["a.xml", "b.xml"], None), (["a.xml", "a.xml"], None), (["a.xml", "a.xml", "b.xml"], None), (["a.xml", "b.xml"], CALLER)]
+    # ... and two calls on the SAME two-namespace file with different namespace lists: whatever one call leaves for the other must not carry its own list
+    sets = [(["a.xml", "b.xml"], None), (["a.xml", "a.xml"], None), (["a.xml", "a.xml", "b.xml"], None), (["a.xml", "b.xml"], CALLER),
+            (["c.xml", "c.xml"], ("per-thread", [None, [docs.UA, "urn:a", "urn:c"]]))]
     reqs = []; meta = []
     try:
         # a directory parse next to a file parse: the directory call lists the directory at every point of the other call's life
@@ -155,7 +162,7 @@ def check(ctx):
             lone = [solo(d0, "a.xml"), ["ok", whole_result(parse_xml_dir(d0, list(nsl)))]]
             sched = [0] * k0 + [1] * 12
             res = run_dir_schedule(d0, sched, nsl)
-            left = sorted(set(os.listdir(d0)) - {"a.xml", "b.xml"})
+            left = sorted(set(os.listdir(d0)) - set(n for n, _ in files_doc))
             ctx.record(dict(threads=["a.xml", "dir[urn:b]"], schedule=sched), k0 > 0, ["threads=a.xml,directory", "all-solo" if res == lone else "interference"])
             for i in range(2):
                 if res[i] != lone[i]:
@@ -178,7 +185,7 @@ def check(ctx):
             for s in scheds:
                 out, left, fails = judge(files_doc, tf, s, work, caller)
                 tail = [i for i in range(len(tf)) for _ in range(40)]
-                reqs.append([Sym("c20_blocks"), list(s) + tail, [[0, 1], [1, 2]], [[pth[n], nl[n]] for n in tf]])
+                reqs.append([Sym("c20_blocks"), list(s) + tail, [[0, 1], [1, 2], [2, 3]], [[pth[n], nl[n]] for n in tf]])
                 meta.append((tf, s, out, left))
                 runs = [k for k, g in itertools.groupby(s)]
                 ctx.record(dict(threads=tf, schedule=s, caller=caller), len(runs) > len(tf), ["threads=" + ",".join(tf) + (" with namespace list" if caller else ""), "all-solo" if all(o[0] == "solo" for o in out) else "interference"])
@@ -209,14 +216,14 @@ def oracle_case(case):
     work = os.path.join(vlib.WORK, "c20r_%d" % os.getpid()); os.makedirs(work, exist_ok=True)
     try:
         rng = random.Random(5)
-        da = docs.simple_doc(rng, "urn:a"); db = docs.simple_doc(rng, "urn:b", n_nodes=2, with_aliases=False)
+        da = docs.simple_doc(rng, "urn:a"); db = docs.simple_doc(rng, "urn:b", n_nodes=2, with_aliases=False); dc = docs.simple_doc(rng, "urn:c", extra_uris=["urn:a"], n_nodes=2)
         if case.get("kind") == "dir-schedule":
             from opcua_tools.nodeset_parser import parse_xml_dir
-            d0 = os.path.join(work, "dirrun"); write_docs(d0, [(n, docs.render(doc, random.Random(1))) for n, doc in [("a.xml", da), ("b.xml", db)]])
+            d0 = os.path.join(work, "dirrun"); write_docs(d0, [(n, docs.render(doc, random.Random(1))) for n, doc in [("a.xml", da), ("b.xml", db), ("c.xml", dc)]])
             nsl = [docs.UA, "urn:b"]; lone = [solo(d0, "a.xml"), ["ok", whole_result(parse_xml_dir(d0, list(nsl)))]]
             res = run_dir_schedule(d0, [0] * case["k0"] + [1] * 12, nsl)
             return [("C20/interference", "call %d differs from the lone call" % i) for i in range(2) if res[i] != lone[i]]
-        out, left, fails = judge([("a.xml", da), ("b.xml", db)], case["threads"], case["schedule"], work, case.get("caller"))
+        out, left, fails = judge([("a.xml", da), ("b.xml", db), ("c.xml", dc)], case["threads"], case["schedule"], work, case.get("caller"))
         return fails
     finally:
         shutil.rmtree(work, ignore_errors=True)
